@@ -100,6 +100,53 @@ def check(ctx):
     ok = len(a) == 1 and lib.mentions_param(a[0][3]["lens"], "original_path") and all(lib.mentions_param(a[0][3][k], "original_tetraplet") for k in ("peer_pk", "service_id", "function_name"))
     ctx.require(ok, "R-FLOW", "helper:update_tetraplet_with_path", "keeps peer/service/function of the original tetraplet, lens from the path", "update_tetraplet_with_path builds `%s`" % show(e)[:200])
 
+    # update_tetraplet_with_path(base, path, prefix): the helper keeps the base's own lens only when `prefix` is true.
+    # An ELEMENT of a canon stream map carries the lens it was stored with, so selecting further inside it must prefix
+    # (true); the map's own tetraplet has an empty lens, there the flag is false.  Table over all call sites:
+    ctx.clause("R-TABLE update_tetraplet_with_path call sites: element tetraplet -> prefix kept (true); container tetraplet -> false")
+    sites = {}
+    for g in F.fns.values():
+        if g.crate != "air":
+            continue
+        for f_, c_, p_ in lib.family_calls(F, g, "applier::update_tetraplet_with_path") if g.kind != "Closure" else []:
+            base, flag = p_.operand(c_.args[0]), p_.operand(c_.args[2])
+            kind = "container" if lib.mentions_call(base, "CanonStreamMap::tetraplet") else ("element" if any(x[0] == "call" and x[1].endswith(("::nth", "::next", "::get")) for x in walk(base)) else show(base)[:60])
+            val = {"1": "true", "0": "false"}.get(flag[2], str(flag[2])) if flag[0] == "const" else show(flag)[:40]
+            sites.setdefault(kind, set()).add(val)
+    ctx.require(sites == {"element": {"true"}, "container": {"false"}}, "R-TABLE", "helper:prefix-flag", "element tetraplets keep their stored lens as prefix, container tetraplets start a fresh lens",
+                "update_tetraplet_with_path is called with flags %s, expected {element: true, container: false}: a lens stored with a canon-map element would be dropped from the tetraplet handed to services" % {k: sorted(v) for k, v in sites.items()},
+                sample={"sites": {k: sorted(v) for k, v in sites.items()}})
+    pfx = [b_ for b_ in lib.bool_branches(ut) if b_.expr[0] == "param" and b_.expr[1] == "prefix_with_path"]
+    okp = len(pfx) == 1
+    if okp:
+        tb = {}
+        for st in lib.enumerate_paths(ut):
+            for br, val in st.conds:
+                if not isinstance(br, str) and br.expr[0] == "param" and br.expr[1] == "prefix_with_path":
+                    le = [x for x in walk(lib.PathProv(ut, st.blocks).local(0)) if x[0] == "agg" and x[1].endswith("SecurityTetraplet")]
+                    tb[val] = bool(le) and lib.mentions_field(le[0][3]["lens"], "lens")
+        okp = tb == {True: True, False: False}
+    ctx.require(okp, "R-TABLE", "helper:prefix-semantics", "prefix_with_path=true keeps original.lens + path, false -> path only", "update_tetraplet_with_path no longer keeps the original lens exactly when prefix_with_path is set")
+
+    # provenance read-back: every *Aggregate with a get_tetraplet method rebuilds the tetraplet from ALL its provenance
+    # fields (everything except the value and its trace position) — obligations derived from the struct definitions
+    ctx.clause("R-COVER get_tetraplet of every value aggregate reads all of its provenance fields")
+    n_agg = 0
+    for pth, adt in F.adts.items():
+        if not (pth.startswith("air::execution_step::value_types::scalar::values::") and pth.endswith("Aggregate")):
+            continue
+        gts = [f_ for f_ in F.find(pth.split("::")[-1] + "::get_tetraplet") if f_.crate == "air"]
+        if not gts:
+            continue
+        n_agg += 1
+        fields = [fl["name"] for v in adt["variants"] for fl in v["fields"] if fl["name"] not in ("result", "trace_pos")]
+        e_ = Prov(gts[0]).local(0)
+        missing = [fl for fl in fields if not lib.mentions_field(e_, fl)]
+        ctx.require(not missing, "R-COVER", "agg-tetraplet:" + pth.split("::")[-1], "%s::get_tetraplet uses %s" % (pth.split("::")[-1], fields),
+                    "%s::get_tetraplet ignores its provenance field(s) %s: the tetraplet read back for a stored value loses that part (e.g. the lens)" % (pth.split("::")[-1], missing),
+                    sample={"aggregate": pth.split("::")[-1], "fields": fields})
+    ctx.floor("R-COVER", "value aggregates with get_tetraplet", n_agg, 2)
+
     # siblings
     impls = F.impl_fns("jvaluable::JValuable", "", "apply_lambda_with_tetraplets")
     ctx.floor("R-SIBLING", "apply_lambda_with_tetraplets impls", len(impls), 5)
